@@ -12,6 +12,7 @@ type GenOpts struct {
 	Kinds        []TKind
 	WrapPct      int  // chance that argument expressions are wrapped in rt.A
 	ShadowPct    int  // chance that Params come from variables named like generated identifiers
+	TwinPct      int  // chance that a flow has two value types of one name from two packages of one name
 	PairPct      int  // chance that a program is printed into the file of its predecessor (two directives per file)
 	LineDirPct   int  // chance that //line comments with decreasing line numbers sit between the directive's arguments
 	ImportPct    int  // chance that some functions of a flow come from a helper package, with value types from packages the file imports / does not import
@@ -35,6 +36,7 @@ func DefaultOpts() GenOpts {
 		ImportPct:  20,
 		LineDirPct: 10,
 		PairPct:    15,
+		TwinPct:    25,
 		GenericPct: 15,
 		MaxColl:    3,
 		EndPct:     40,
@@ -42,17 +44,30 @@ func DefaultOpts() GenOpts {
 }
 
 type flowGen struct {
-	r     *Rand
-	o     GenOpts
-	p     *Program
-	basic map[TKind]bool
-	nfn   int
+	r                  *Rand
+	o                  GenOpts
+	p                  *Program
+	basic              map[TKind]bool
+	nfn                int
+	twins              bool // this program gets a pair of value types ma.U / mb.U (two packages of one name)
+	curTask, twinATask int  // 1-based index of the task whose outputs are being created (0: none)
+	twinJoined         bool
 }
 
 func (g *flowGen) newType() int {
+	if g.twins && g.curTask > 0 && g.basic[KTwinA] && !g.basic[KTwinB] && g.curTask != g.twinATask {
+		// the twin is an output of the next task
+		g.basic[KTwinB] = true
+		g.p.Types = append(g.p.Types, KTwinB)
+		return len(g.p.Types) - 1
+	}
 	for {
 		k := g.o.Kinds[g.r.Intn(len(g.o.Kinds))]
-		if k.Unnamed() {
+		if g.twins && g.curTask > 0 && !g.basic[KTwinA] {
+			k = KTwinA
+			g.twinATask = g.curTask
+		}
+		if k.Unnamed() || k == KTwinA {
 			if g.basic[k] {
 				continue
 			}
@@ -78,6 +93,7 @@ func GenFlow(r *Rand, name string, o GenOpts) *Program {
 	g := &flowGen{r: r, o: o, p: &Program{Name: name}, basic: map[TKind]bool{}}
 	p := g.p
 	p.Types = []TKind{KNamedInt} // type 0 is never used (keeps ids positive)
+	g.twins = o.TwinPct > 0 && int(Mix(uint64(p.nameOffset())+19)%100) < o.TwinPct
 	f := &Flow{}
 	p.Flow = f
 	var avail []int
@@ -128,6 +144,28 @@ func GenFlow(r *Rand, name string, o GenOpts) *Program {
 	for i := 0; i < nt; i++ {
 		t := Task{Fn: g.newFn("task")}
 		t.Fn.Ins = pickIns(3)
+		if g.twins && !g.twinJoined {
+			// the first task created after both twins exist consumes both
+			a, b := 0, 0
+			for _, ty := range avail {
+				switch p.Types[ty] {
+				case KTwinA:
+					a = ty
+				case KTwinB:
+					b = ty
+				}
+			}
+			if a > 0 && b > 0 {
+				var ins []int
+				for _, ty := range t.Fn.Ins {
+					if ty != a && ty != b {
+						ins = append(ins, ty)
+					}
+				}
+				t.Fn.Ins = append(ins, a, b)
+				g.twinJoined = true
+			}
+		}
 		if len(t.Fn.Ins) == 0 && len(avail) > 0 && r.Chance(2, 3) {
 			t.Fn.Ins = []int{avail[r.Intn(len(avail))]}
 		}
@@ -146,9 +184,11 @@ func GenFlow(r *Rand, name string, o GenOpts) *Program {
 			}
 			t.Pred = &pf
 		}
+		g.curTask = i + 1
 		for k := 0; k < nout; k++ {
 			t.Fn.Outs = append(t.Fn.Outs, g.newType())
 		}
+		g.curTask = 0
 		if nout == 0 {
 			t.Invoke = true
 		}
@@ -168,6 +208,26 @@ func GenFlow(r *Rand, name string, o GenOpts) *Program {
 			unconsumed[out] = true
 		}
 		f.Tasks = append(f.Tasks, t)
+	}
+	if g.twins && !g.twinJoined && !o.NoInvoke {
+		// no task consumes both twins yet: a sink task does
+		a, b := 0, 0
+		for _, ty := range avail {
+			switch p.Types[ty] {
+			case KTwinA:
+				a = ty
+			case KTwinB:
+				b = ty
+			}
+		}
+		if a > 0 && b > 0 {
+			t := Task{Fn: g.newFn("task"), Invoke: true}
+			t.Fn.Ins = []int{a, b}
+			delete(unconsumed, a)
+			delete(unconsumed, b)
+			f.Tasks = append(f.Tasks, t)
+			g.twinJoined = true
+		}
 	}
 	// Consume what is left: Results or sink tasks.
 	var left []int
@@ -355,6 +415,9 @@ func (g *flowGen) finish() {
 	}
 	if p.InVarLit {
 		feat["directive-in-package-level-func-literal"] = true
+	}
+	if p.hasKind(KTwinA) && p.hasKind(KTwinB) {
+		feat["twin-packages"] = true
 	}
 	if p.PadLines && !p.LineDirs {
 		feat["directive-straddles-line-98-100-or-998-1000"] = true
